@@ -315,11 +315,12 @@ func init() {
 		Explanation: "Decided: R-FORWARD - ApplyNamespace of every container forwards to every child (json-tagged Serializable field, or map/slice of such; inside a loop for " +
 			"collections) with the namespace string and the object table unchanged; the scope hands down its own table exactly for the self namespace and the external " +
 			"table otherwise; the reference links only when the namespace matches, to objects[its own ID]; ValidateReferences visits every child, returns its verdict, and " +
-			"succeeds for a reference iff it is linked; the loaders link all scopes. NOT decided: the metamorphic 'inline the reference' equivalence over inputs; " +
+			"succeeds for a reference iff it is linked; the loaders link all scopes. R-NSDEREF - code that runs while a namespace is being applied uses a child Object through a method that needs a linked reference (the RefSchema methods that panic on a nil cache) only where the child is known not to be an unlinked reference. NOT decided: the metamorphic 'inline the reference' equivalence over inputs; " +
 			"termination of the linking walk on self-referential object graphs.",
 		Assumptions: []string{wellFormed},
 		Rules: []func(*Ctx){
 			func(c *Ctx) { c.ruleForward("R-FORWARD") },
+			func(c *Ctx) { c.ruleNsDeref("R-NSDEREF") },
 		},
 	})
 	register(&PropSpec{
